@@ -374,6 +374,16 @@ func (r *runner) protectedFiles() map[string]string {
 			}
 		}
 	}
+	if r.seedTree != nil && r.wants("c02-seed") {
+		// a history taken from a crash state: the declared outputs that are at their final paths
+		for _, t := range r.ref.Tasks {
+			for _, p := range t.Outs {
+				if c, ok := r.seedTreeAfterClean[p]; ok && c != "<dir>" {
+					m[p] = c
+				}
+			}
+		}
+	}
 	r.protected = m
 	return m
 }
